@@ -408,6 +408,61 @@ def part_ref(_):
     return res
 
 
+
+# one `match $r.<Event>()` statement reached several times, `$r` referring to another action (of another type) / another
+# flow each time: a generic helper flow used for two references, and a loop that starts another action per round
+REUSED_STATEMENT = {
+    "helper-flow-two-action-types": (
+        "flow wait for $r\n  match $r.Finished()\n\nflow main\n  start Act1Action() as $a\n  start Act2Action() as $b\n"
+        "  await wait for $a\n  send Progress(step=1)\n  await wait for $b\n  send Progress(step=2)\n  match Never()\n",
+        ["Act1Action", "Act2Action"]),
+    "loop-two-action-types": (
+        "flow main\n  $i = 0\n  while $i < 2\n    if $i == 0\n      start Act1Action() as $r\n    else\n      start Act2Action() as $r\n"
+        "    match $r.Finished()\n    $i = $i + 1\n    send Progress(step=$i)\n  match Never()\n",
+        ["Act1Action", "Act2Action"]),
+    "loop-same-type-two-instances": (
+        "flow main\n  $i = 0\n  while $i < 2\n    start Act1Action() as $r\n    match $r.Finished()\n    $i = $i + 1\n    send Progress(step=$i)\n  match Never()\n",
+        ["Act1Action", "Act1Action"]),
+    "helper-flow-started-events": (
+        "flow wait for $r\n  match $r.Started()\n\nflow main\n  start Act1Action() as $a\n  start Act2Action() as $b\n"
+        "  await wait for $a\n  send Progress(step=1)\n  await wait for $b\n  send Progress(step=2)\n  match Never()\n",
+        ["Act1Action", "Act2Action"]),
+}
+
+
+def part_reused_statement(_):
+    res = {"reused_statement_cases": 0, "violations": []}
+    for name, (src, order) in REUSED_STATEMENT.items():
+        kind = "Started" if "Started" in src else "Finished"
+        try:
+            st = v2x.init_state(src)
+            v2x.step(st, v2x.resolve_event(st, ("start_main",)), [], v2x.UIDS.n)
+            steps = []
+            for k, act_name in enumerate(order, start=1):
+                pend = [a for a in v2x.pending_actions(st) if a.name == act_name and (kind == "Finished" or a.status.name == "STARTING")]
+                if not pend:
+                    res["violations"].append((f"reused-statement:{name}:round-{k}", f"no pending {act_name} in round {k} (the statement did not advance before)", {"engine": "C04-ref", "source": src}))
+                    break
+                # an event of the OTHER type / a foreign instance must not advance the statement ...
+                other = "Act2Action" if act_name == "Act1Action" else "Act1Action"
+                stx = v2x.copy_state(st)
+                v2x.step(stx, {"type": f"{other}{kind}", "action_uid": "ffffffff-0000-4000-8000-000000000001"}, [], v2x.UIDS.n)
+                if any(e["type"] == "Progress" for e in stx.outgoing_events):
+                    res["violations"].append((f"reused-statement:{name}:foreign-event-advanced", f"round {k}: a {other}{kind} event of a foreign instance advanced `match $r.{kind}()`", {"engine": "C04-ref", "source": src}))
+                # ... the event of the referenced instance must
+                v2x.step(st, {"type": f"{act_name}{kind}", "action_uid": pend[0].uid}, [], v2x.UIDS.n)
+                got = [e.get("step") for e in st.outgoing_events if e["type"] == "Progress"]
+                res["reused_statement_cases"] += 1
+                if got != [k]:
+                    res["violations"].append((f"reused-statement:{name}:not-advanced-in-round-{k}",
+                                              f"`match $r.{kind}()` reached for the {k}. time with $r = {act_name}: its {kind} event gave Progress {got}, expected [{k}]",
+                                              {"engine": "C04-ref", "source": src}))
+                    break
+        except Exception as e:
+            res["violations"].append((f"reused-statement:{name}:raised", repr(e), {"engine": "C04-ref", "source": src}))
+    return res
+
+
 def part_flow_params(_):
     """`match f.Finished()` / `match f.Started()` / `match f(...).Finished()` on a flow NAME: parameters of the flow
     that the statement does not mention never prevent the match; mentioned ones must be equal"""
@@ -710,6 +765,10 @@ def run(rep, tier):
     for sig, what, rp in fp["violations"]:
         rep.violation(sig, what, rp)
     rep.set("flow_name_event_cases", fp["flow_param_cases"])
+    ru = part_reused_statement(None)
+    for sig, what, rp in ru["violations"]:
+        rep.violation(sig, what, rp)
+    rep.set("reused_statement_cases", ru["reused_statement_cases"])
     fe = part_flow_events(None)
     for sig, what, rp in fe["violations"]:
         rep.violation(sig, what, rp)
